@@ -818,5 +818,13 @@ func basicTypedSlice(items []interface{}) interface{} {
 	for i, e := range items {
 		out.Index(i).Set(reflect.ValueOf(e))
 	}
+	if ts, isT := out.Interface().([]time.Time); isT && len(ts)%2 == 1 {
+		// a NAMED slice type whose elements are struct values that are leaves: no fast path of ggql's knows it, it is walked
+		// by reflection
+		return TimeList(ts)
+	}
 	return out.Interface()
 }
+
+// TimeList is an application's own list type of instants.
+type TimeList []time.Time
